@@ -70,7 +70,8 @@ Rep(s, d, g, omit, dir) ==
 KeysDistinct(es) == \A i, j \in 1..Len(es) : i # j => es[i].b # es[j].b
 
 RepNN(s, d, g, dir) ==
-  CASE g.k = "ptr" ->
+  CASE s.k = "null" -> dir = "r" /\ d.k = "null" /\ IsZeroV(g)       \* a null datum leaves the target untouched
+    [] g.k = "ptr" ->
          IF g.c = <<>> THEN
               \* a nil pointer outside a union: only a pointer to a slice or map, written as the empty collection
               dir = "w" /\ s.k \in {"array", "map"} /\ d.k = s.k /\ d.c = <<>>
@@ -101,6 +102,20 @@ RepFields(s, d, g, dir) ==
         ELSE LET j == CHOOSE x \in J : \A y \in J : y <= x IN Rep(s.c[i].c[1], d.c[i], g.c[j].c[1], g.c[j].omit, dir)
   /\ dir = "r" => \A j \in 1..Len(g.c) :
         (\A i \in 1..Len(s.c) : s.c[i].name # g.c[j].n) => IsZeroV(g.c[j].c[1])
+
+(* Does every integer of the datum fit the Go field it is read into?  Go type nodes: [k, w, name, c]; *)
+(* struct fields [n, c = <<type>>]; map c = <<key type, element type>>.                               *)
+FieldNamed(t, nm) == LET J == {j \in 1..Len(t.c) : t.c[j].n = nm} IN IF J = {} THEN 0 ELSE CHOOSE x \in J : \A y \in J : y <= x
+RECURSIVE Fits(_, _, _)
+Fits(s, d, t) ==
+  CASE t.k = "ptr" -> IF s.k = "union" /\ Nullable(s) THEN (d.b[1] = NullIdx(s) \/ Fits(NonNullS(s), d.c[1], t.c[1])) ELSE Fits(s, d, t.c[1])
+    [] s.k = "union" -> IF Nullable(s) /\ d.b[1] = NullIdx(s) THEN TRUE ELSE Fits(s.c[d.b[1] + 1], d.c[1], t)
+    [] t.k = "int" -> d.k # "long" \/ FitsWidth(d.b, t.w)
+    [] t.k = "slice" -> s.k # "array" \/ \A i \in 1..Len(d.c) : Fits(s.c[1], d.c[i], t.c[1])
+    [] t.k = "map" -> s.k # "map" \/ \A i \in 1..Len(d.c) : Fits(s.c[1], d.c[i].c[1], t.c[2])
+    [] t.k = "struct" -> s.k # "record" \/ \A i \in 1..Len(s.c) :
+                            LET j == FieldNamed(t, s.c[i].name) IN j = 0 \/ Fits(s.c[i].c[1], d.c[i], t.c[j].c[1])
+    [] OTHER -> TRUE
 
 (* ------------- the documented normalisations of C01 ------------------- *)
 RECURSIVE NormV(_, _)
